@@ -92,9 +92,13 @@ def gen_call(rng, sig, counter):
     if shape == 'posonly_kw' and sig['posonly']:
         kwargs.append([rng.choice(sig['posonly']), nxt()])
     if shape in ('unknown_kw', 'mixed'):
-        kwargs.append([rng.choice(['zz', 'qq']), nxt()])
+        # excess keywords: fresh names, and names that other signatures of this run declare (nothing about one callable may depend
+        # on what was decorated before it)
+        mine = set(positional + sig['kwonly'] + [sig['varpos'], sig['varkw']])
+        foreign = [n for n in ['a', 'b', 'c', 'd', 'e', 'g', 'h', 'x', 'y'] if n not in mine]
+        kwargs.append([rng.choice(['zz', 'qq'] + foreign[:3]), nxt()])
         if rng.random() < 0.5:
-            kwargs.append(['ww', nxt()])
+            kwargs.append([rng.choice(['ww'] + foreign[3:5]), nxt()])
     rng.shuffle(kwargs)
     seen, kw2 = set(), []
     for k, v in kwargs:
